@@ -31,6 +31,7 @@ type Case struct {
 	Fuel  int    `json:"fuel,omitempty"`
 	WantT bool   `json:"wantToks,omitempty"`
 	WantA bool   `json:"wantAst,omitempty"`
+	Trace bool   `json:"trace,omitempty"`  // record the ordered event trace of the run (direction 2)
 	Repeat int   `json:"repeat,omitempty"` // run the case this many times in this one process; report distinct observations
 }
 
@@ -69,8 +70,22 @@ type Result struct {
 	Steps    int         `json:"steps"`
 	StdinPos int64       `json:"stdinPos"`
 	Out2     string      `json:"out2,omitempty"`  // result of a pure helper (mode translit)
+	Trace    []TraceEv   `json:"trace,omitempty"`
 	Variants []string    `json:"variants,omitempty"` // mode run with Repeat: observations that differ from the first run
 	Crash    string      `json:"crash,omitempty"` // set by the pool, never by the worker
+}
+
+// TraceEv is one observed event of a run, at the granularity of the specification's emitting actions.
+type TraceEv struct {
+	Ev     string      `json:"ev"` // print | echo | native | diag | end
+	V      interface{} `json:"v,omitempty"`
+	Name   string      `json:"name"`
+	NArgs  int         `json:"nargs"`
+	Prompt []int       `json:"prompt"`
+	HasP   bool        `json:"hasprompt"`
+	Kind   string      `json:"kind"`
+	Ln     int         `json:"ln"`
+	Status string      `json:"status"`
 }
 
 type fuelExhausted struct{}
@@ -145,6 +160,8 @@ type workerState struct {
 	outF, errF, inF *os.File
 	events          []Event
 	steps, fuel     int
+	tracing         bool
+	trace           []TraceEv
 }
 
 func (w *workerState) outOff() int64 {
@@ -227,6 +244,7 @@ func (w *workerState) reset(stdin string) {
 		w.inF.Seek(0, io.SeekStart)
 	}
 	w.events = w.events[:0]
+	w.trace = nil
 	w.steps = 0
 	utils.HadError = false
 	utils.HadRuntimeError = false
@@ -244,6 +262,7 @@ func readAll(f *os.File) string {
 
 func (w *workerState) runCase(c *Case) (res *Result) {
 	w.reset(c.Stdin)
+	w.tracing = c.Trace
 	w.fuel = c.Fuel
 	if w.fuel == 0 {
 		w.fuel = 300000
@@ -268,6 +287,16 @@ func (w *workerState) runCase(c *Case) (res *Result) {
 		res.Out = readAll(w.outF)
 		res.Err = readAll(w.errF)
 		res.Events = append([]Event(nil), w.events...)
+		if w.tracing {
+			st := "done"
+			if utils.HadRuntimeError {
+				st = "error"
+			}
+			if res.Fuel || res.Panic != "" || utils.HadError {
+				st = "abnormal"
+			}
+			res.Trace = append(w.trace, TraceEv{Ev: "end", Status: st, Prompt: []int{}})
+		}
 		res.HadErr = utils.HadError
 		res.HadRT = utils.HadRuntimeError
 		res.Steps = w.steps
@@ -324,12 +353,19 @@ func installSink(w *workerState) {
 			if w.steps > w.fuel {
 				panic(fuelExhausted{})
 			}
+		case "print", "echo":
+			if w.tracing && len(a) >= 1 && len(w.trace) < 5000 {
+				w.trace = append(w.trace, TraceEv{Ev: ev, V: absValue(a[0], 6, map[uintptr]bool{}), Prompt: []int{}})
+			}
 		case "diag":
 			e := Event{E: "diag", Off: w.outOff(), In: w.inOff()}
 			if len(a) >= 3 {
 				e.Kind, _ = a[0].(string)
 				e.Line, _ = a[1].(int)
 				e.Msg, _ = a[2].(string)
+			}
+			if w.tracing && e.Kind == "runtime" && len(w.trace) < 5000 {
+				w.trace = append(w.trace, TraceEv{Ev: "diag", Kind: kindClass(classifyDiag(e.Msg)), Ln: e.Line, Prompt: []int{}})
 			}
 			if len(w.events) < 64 {
 				w.events = append(w.events, e)
@@ -346,6 +382,23 @@ func installSink(w *workerState) {
 			}
 			if len(w.events) < 4096 {
 				w.events = append(w.events, e)
+			}
+			if n, ok := nativeGoName[e.Name]; ok && w.tracing && len(w.trace) < 5000 {
+				te := TraceEv{Ev: "native", Name: n, NArgs: e.NArg}
+				if n == "input" && e.NArg == 1 {
+					if args, ok := a[1].([]interface{}); ok {
+						switch p := args[0].(type) {
+						case string:
+							te.Prompt, te.HasP = cpsOf(p), true
+						case []rune:
+							te.Prompt, te.HasP = runesToInts(p), true
+						}
+					}
+				}
+				if te.Prompt == nil {
+					te.Prompt = []int{}
+				}
+				w.trace = append(w.trace, te)
 			}
 		}
 	}
